@@ -552,3 +552,23 @@ class PCTSPContext''', "C14.b"),
     V("C14", "init-embedding-centres-on-batch-mean", "rl4co/models/nn/env_embeddings/init.py", '        out = self.init_embed(td["locs"])\n        return out', '        out = self.init_embed(td["locs"] - td["locs"].mean((0, 1), keepdim=True))\n        return out', "C14.a"),
     V("C14", "eq-context-rename", CTXF, "cur_node_embedding", "cur_emb", None, count=99),
 ]
+
+TRF = "rl4co/data/transforms.py"
+EVF = "rl4co/tasks/eval.py"
+CORPUS += [
+    # ---------------------------------------------------------------- C15
+    V("C15", "dihedral-z5-not-permutation", TRF, "z5 = torch.cat((1 - y, x), dim=2)", "z5 = torch.cat((1 - y, y), dim=2)", "C15.a"),
+    V("C15", "dihedral-z3-scaled", TRF, "z3 = torch.cat((1 - x, 1 - y), dim=2)", "z3 = torch.cat((1 - 2 * x, 1 - y), dim=2)", "C15.a"),
+    V("C15", "dihedral-identity-not-first", TRF, "aug_xy = torch.cat((z0, z1, z2, z3, z4, z5, z6, z7), dim=0)", "aug_xy = torch.cat((z1, z0, z2, z3, z4, z5, z6, z7), dim=0)", "C15.a"),
+    V("C15", "dihedral-cat-dim1", TRF, "aug_xy = torch.cat((z0, z1, z2, z3, z4, z5, z6, z7), dim=0)", "aug_xy = torch.cat((z0, z1, z2, z3, z4, z5, z6, z7), dim=1)", "C15.a"),
+    V("C15", "dihedral-duplicate-copy", TRF, "z6 = torch.cat((y, 1 - x), dim=2)", "z6 = torch.cat((1 - y, x), dim=2)", "C15.a"),
+    V("C15", "symmetric-plus-sin-twice", TRF, "x_prime = torch.cos(phi) * x - torch.sin(phi) * y", "x_prime = torch.cos(phi) * x + torch.sin(phi) * y", "C15.b"),
+    V("C15", "symmetric-shear", TRF, "y_prime = torch.sin(phi) * x + torch.cos(phi) * y", "y_prime = torch.sin(phi) * x + y", "C15.b"),
+    V("C15", "symmetric-offset-not-restored", TRF, "    return xy + offset\n", "    return xy\n", "C15.b"),
+    V("C15", "symmetric-first-copy-augmented", TRF, "        phi[: xy.shape[0] // num_augment] = 0.0\n", "        phi[: xy.shape[0] // num_augment] = 0.5\n", "C15.b"),
+    V("C15", "eval-reward-on-augmented", EVF, "        rewards = self.env.get_reward(batchify(td_init, num_augment), out[\"actions\"])", "        rewards = self.env.get_reward(td, out[\"actions\"])", "C15.c"),
+    V("C15", "eval-init-cloned-after-augmentation", EVF, "        td_init = td.clone()\n        td = self.augmentation(td)\n        out = policy(td.clone(), decode_type=\"greedy\", num_starts=0)", "        td = self.augmentation(td)\n        td_init = td.clone()\n        out = policy(td.clone(), decode_type=\"greedy\", num_starts=0)", "C15.c"),
+    V("C15", "eval-policy-reward-instead-of-recomputed", EVF, "        td = batchify(td_init, self.num_starts)\n        rewards = self.env.get_reward(td, out[\"actions\"])\n        rewards = unbatchify(rewards, self.num_starts)", "        rewards = out[\"reward\"]\n        rewards = unbatchify(rewards, self.num_starts)", "C15.c"),
+    V("C15", "eq-symmetric-commuted", TRF, "y_prime = torch.sin(phi) * x + torch.cos(phi) * y", "y_prime = torch.cos(phi) * y + x * torch.sin(phi)", None),
+    V("C15", "eq-dihedral-rename", TRF, "aug_xy", "augmented", None, count=99),
+]
